@@ -33,7 +33,8 @@ RULE = ('mibdump: generated on-disk module sets (healthy, missing, broken member
         '3 visiting orders per world, copy faults. distinct = distinct (tool, format, options, exit code, status multiset, fault kinds, revision pattern); non-trivial = all')
 ASSUMPTIONS = ['--mib-source, --mib-borrower, --mib-searcher and --destination-directory are always passed so that nothing outside the scratch root is consulted',
                '--build-index is combined only with json/null formats (pysnmp has no index generator)',
-               'distinct source copies of one module never tie on the maximal revision (visiting order would then legitimately decide)']
+               'distinct source copies of one module never tie on the maximal revision (visiting order would then legitimately decide)',
+               'a copy without a REVISION clause ranks as the Epoch (1970-01-01); revisions before 1970 (short-form years 00..68 = 1900..1968) are generated only for modules that have no revision-less copy in the tree or at the destination']
 
 MIBDUMP = os.path.join(REPO, 'scripts', 'mibdump.py')
 MIBCOPY = os.path.join(REPO, 'scripts', 'mibcopy.py')
@@ -110,6 +111,9 @@ def gen_mibdump(rng, tier):
     if fmt == 'pysnmp' and rng.random() < 0.5:
         flags.append('--no-python-compile')
     req = [rng.choice(names) for _ in range(rng.choice([1, 1, 2]))]
+    if rng.random() < 0.2:
+        # asked for by the name of the file (lower case, no extension) rather than by the module name
+        req = [(fnames[m].rsplit('.', 1)[0] if fnames.get(m) and fnames[m] != m and fnames[m].endswith('.txt') else m) for m in req]
     scn = {'tool': 'mibdump', 'modules': specs, 'fnames': fnames, 'format': fmt, 'flags': flags, 'requested': req,
            'dest': rng.choice(['missing', 'empty', 'populated']), 'listing_seed': rng.randrange(1 << 30)}
     if rng.random() < 0.3:
@@ -322,7 +326,7 @@ def mod_text(name, rev, tag):
     return '\n'.join(lines) + '\n'
 
 
-REVS = ['199901010000Z', '200506150000Z', '200506151530Z', '201012312359Z', '202002290000Z', '202002290001Z']
+REVS = ['199901010000Z', '200506150000Z', '200506151530Z', '201012312359Z', '202002290000Z', '202002290001Z', '9506150000Z', '0501010000Z', '6812312359Z']
 
 
 def gen_mibcopy(rng, tier):
@@ -332,7 +336,9 @@ def gen_mibcopy(rng, tier):
     for m in names:
         ncopies = rng.choice([1, 1, 2, 3])
         norev = rng.random() < 0.3
-        revs = rng.sample(REVS, min(ncopies, len(REVS)))
+        # a copy without REVISION ranks as the Epoch; revisions before 1970 are offered only where no such copy competes
+        pool = [r for r in REVS if not (len(r) == 11 and r[:2] < '70')] if norev else REVS
+        revs = rng.sample(pool, min(ncopies, len(pool)))
         for c in range(ncopies):
             k += 1
             rev = None if (norev and c == 0) else revs[c]
@@ -364,7 +370,9 @@ def gen_mibcopy(rng, tier):
     if rng.random() < 0.5:
         for m in names:
             if rng.random() < 0.5:
-                dest[m] = {'rev': rng.choice(REVS + [None]), 'tag': rng.choice(['dest', 'd0'])}
+                old_ = any(f_.get('module') == m and f_.get('rev') and len(f_['rev']) == 11 and f_['rev'][:2] < '70' for f_ in files)
+                norev_ = any(f_.get('module') == m and f_.get('rev') is None and not f_.get('broken') and not f_.get('garbage') for f_ in files)
+                dest[m] = {'rev': rng.choice([r for r in REVS if not (norev_ and len(r) == 11 and r[:2] < '70')] + ([] if old_ else [None])), 'tag': rng.choice(['dest', 'd0'])}
     scn = {'tool': 'mibcopy', 'files': files, 'dest': dest, 'orders': [rng.randrange(1 << 30) for _ in range(3)], 'flags': rng.choice([[], [], ['--verbose'], ['--quiet'], ['--ignore-errors']])}
     if rng.random() < 0.12:
         scn['rate'] = {'p': 0.3, 'seed': rng.randrange(1 << 30), 'sites': ['shutil.copy'], 'actions': ['errno']}
@@ -388,12 +396,13 @@ def gen_mibcopy(rng, tier):
                 if newp == f_['path'] or newp not in taken:
                     f_['path'] = newp
                     f_['tag'] = 'c7'
-                    dest[f_['module']] = {'rev': rng.choice([r for r in REVS if r != f_['rev']]), 'tag': 'd0'}
+                    dest[f_['module']] = {'rev': rng.choice([r for r in REVS if r != f_['rev'] and len(r) == len(f_['rev'])]), 'tag': 'd0'}
     return scn
 
 
 def revkey(r):
-    return '' if r is None else r
+    # RFC 2578: the short form YYMMDDHHMMZ always means 19YY
+    return '' if r is None else ('19' + r if len(r) == 11 else r)
 
 
 def run_mibcopy(scn):
